@@ -73,7 +73,7 @@ def buildCommand (nt : α → Text) (gcode : Text) (args : List (Char × Option 
 /-- the text of a returned command -/
 def render (nt : α → Text) : Out α → Except PyErr Text
   | .orig c => .ok c.text
-  | .script t => .ok t
+  | .script _ t => .ok t
   | .g92e e => do let e ← fmtNum nt e; .ok ("G92 E".toList ++ e)
   | .g0z f z => do
     let f ← fmtNum nt f; let z ← fmtNum nt z
